@@ -172,7 +172,8 @@ func (r *subRegistry) Referrers(ctx context.Context, repo string, digest ociregi
 // they refer to the prefixed names rather than the originals.
 func (r *subRegistry) mapScopes(ctx context.Context) context.Context {
 	scope := ociauth.ScopeFromContext(ctx)
-	if scope.IsEmpty() {
+	if scope.IsEmpty() || scope.IsUnlimited() {
+		// Nothing to map (the unlimited scope has no members).
 		return ctx
 	}
 	// TODO we could potentially provide a Scope constructor
